@@ -133,5 +133,114 @@ pub mod hs {
             if !(p.contains(x) || di.contains(x)) { gs::lemma_no_dup_push(p, x); }
         }
     }
+
+    // --- C02: the signature's pre-image is unambiguous.  Under the no-collision assumption (hfinish injective) equal
+    //     signatures mean: same names and mtimes of the dirtying inputs, of the discovered deps and of the outputs, same
+    //     command line, same response file.  So a step is skipped only if none of these changed since the record.
+    pub open spec fn nosep(s: Seq<Fed>) -> bool { forall|i: int| 0 <= i < s.len() ==> !(#[trigger] s[i] is Sep) }
+    pub proof fn lemma_files_fed_shape(files: GraphFiles, fs: FileState, ids: Seq<FileId>)
+        ensures nosep(files_fed(files, fs, ids)), files_fed(files, fs, ids).len() == 2 * ids.len(),
+            forall|k: int| 0 <= k < ids.len() ==> #[trigger] files_fed(files, fs, ids)[2 * k] == Fed::Str(files.by_id.vec@[ix(ids[k])].name@)
+                && files_fed(files, fs, ids)[2 * k + 1] == Fed::Time(stamp_of(fs, ids[k])),
+        decreases ids.len()
+    {
+        if ids.len() > 0 {
+            lemma_files_fed_shape(files, fs, ids.drop_last());
+            let p = files_fed(files, fs, ids.drop_last());
+            let f = files_fed(files, fs, ids);
+            assert forall|k: int| 0 <= k < ids.len() implies #[trigger] f[2 * k] == Fed::Str(files.by_id.vec@[ix(ids[k])].name@)
+                && f[2 * k + 1] == Fed::Time(stamp_of(fs, ids[k])) by {
+                if k < ids.len() - 1 { assert(f[2 * k] == p[2 * k]); assert(f[2 * k + 1] == p[2 * k + 1]); assert(ids.drop_last()[k] == ids[k]); }
+            }
+        }
+    }
+    pub proof fn lemma_split_at_sep(a: Seq<Fed>, r: Seq<Fed>, a2: Seq<Fed>, r2: Seq<Fed>)
+        requires nosep(a), nosep(a2), a + seq![Fed::Sep] + r == a2 + seq![Fed::Sep] + r2
+        ensures a == a2, r == r2
+    {
+        let l = a + seq![Fed::Sep] + r;
+        let l2 = a2 + seq![Fed::Sep] + r2;
+        if a.len() < a2.len() { assert(l[a.len() as int] is Sep); assert(l2[a.len() as int] == a2[a.len() as int]); }
+        if a2.len() < a.len() { assert(l2[a2.len() as int] is Sep); assert(l[a2.len() as int] == a[a2.len() as int]); }
+        assert(a =~= a2) by { assert forall|i: int| 0 <= i < a.len() implies a[i] == a2[i] by { assert(l[i] == a[i]); assert(l2[i] == a2[i]); } }
+        assert(r =~= r2) by {
+            assert(l.len() == l2.len());
+            assert forall|i: int| 0 <= i < r.len() implies r[i] == r2[i] by { assert(l[a.len() + 1 + i] == r[i]); assert(l2[a2.len() + 1 + i] == r2[i]); }
+        }
+    }
+    /// what the signature pins down
+    pub open spec fn same_inputs(f1: GraphFiles, s1: FileState, b1: Build, f2: GraphFiles, s2: FileState, b2: Build) -> bool {
+        files_fed(f1, s1, gs::dirtying_ins(b1)) == files_fed(f2, s2, gs::dirtying_ins(b2))
+        && files_fed(f1, s1, b1.discovered_ins@) == files_fed(f2, s2, b2.discovered_ins@)
+        && cmd_of(b1) == cmd_of(b2) && b1.rspfile == b2.rspfile
+        && files_fed(f1, s1, b1.outs.ids@) == files_fed(f2, s2, b2.outs.ids@)
+    }
+    pub proof fn lemma_manifest_inj(f1: GraphFiles, s1: FileState, b1: Build, f2: GraphFiles, s2: FileState, b2: Build)
+        requires manifest(f1, s1, b1) == manifest(f2, s2, b2)
+        ensures same_inputs(f1, s1, b1, f2, s2, b2)
+    {
+        let (a, b, c) = (files_fed(f1, s1, gs::dirtying_ins(b1)), files_fed(f1, s1, b1.discovered_ins@), files_fed(f1, s1, b1.outs.ids@));
+        let (a2, bb2, c2) = (files_fed(f2, s2, gs::dirtying_ins(b2)), files_fed(f2, s2, b2.discovered_ins@), files_fed(f2, s2, b2.outs.ids@));
+        lemma_files_fed_shape(f1, s1, gs::dirtying_ins(b1)); lemma_files_fed_shape(f1, s1, b1.discovered_ins@); lemma_files_fed_shape(f1, s1, b1.outs.ids@);
+        lemma_files_fed_shape(f2, s2, gs::dirtying_ins(b2)); lemma_files_fed_shape(f2, s2, b2.discovered_ins@); lemma_files_fed_shape(f2, s2, b2.outs.ids@);
+        let sep = seq![Fed::Sep];
+        let t1 = seq![Fed::Str(cmd_of(b1)), Fed::Sep] + rsp_fed(b1) + c + sep;
+        let t2 = seq![Fed::Str(cmd_of(b2)), Fed::Sep] + rsp_fed(b2) + c2 + sep;
+        let r1 = b + sep + t1;
+        let r2 = bb2 + sep + t2;
+        assert(manifest(f1, s1, b1) =~= a + sep + r1);
+        assert(manifest(f2, s2, b2) =~= a2 + sep + r2);
+        lemma_split_at_sep(a, r1, a2, r2);
+        lemma_split_at_sep(b, t1, bb2, t2);
+        // t = [Str(cmd), Sep] ++ rsp ++ c ++ [Sep]
+        assert(t1[0] == Fed::Str(cmd_of(b1)) && t2[0] == Fed::Str(cmd_of(b2)));
+        let u1 = rsp_fed(b1) + c + sep;
+        let u2 = rsp_fed(b2) + c2 + sep;
+        assert(u1 =~= t1.skip(2)); assert(u2 =~= t2.skip(2));
+        // the response file: an Rsp item can only be the optional first element of u
+        if b1.rspfile is Some && b2.rspfile is Some {
+            assert(u1[0] == Fed::Rsp(b1.rspfile->Some_0)); assert(u2[0] == Fed::Rsp(b2.rspfile->Some_0));
+            assert((c + sep) =~= u1.skip(1)); assert((c2 + sep) =~= u2.skip(1));
+        } else if b1.rspfile is None && b2.rspfile is None {
+            assert((c + sep) =~= u1); assert((c2 + sep) =~= u2);
+        } else if b1.rspfile is Some {
+            assert(u1[0] == Fed::Rsp(b1.rspfile->Some_0));
+            assert(u2[0] == (c2 + sep)[0]);
+            if c2.len() > 0 { assert(u2[0] == c2[0]); assert(c2[0] == c2[2 * 0int]); assert(b2.outs.ids@.len() > 0); } else { assert(u2[0] is Sep); }
+            assert(false);
+        } else {
+            assert(u2[0] == Fed::Rsp(b2.rspfile->Some_0));
+            assert(u1[0] == (c + sep)[0]);
+            if c.len() > 0 { assert(u1[0] == c[0]); assert(c[0] == c[2 * 0int]); assert(b1.outs.ids@.len() > 0); } else { assert(u1[0] is Sep); }
+            assert(false);
+        }
+        lemma_split_at_sep(c, Seq::<Fed>::empty(), c2, Seq::<Fed>::empty());
+    }
+
+    /// equal fed lists = same number of files with the same names and the same mtimes, position by position
+    pub proof fn lemma_files_fed_eq(f1: GraphFiles, s1: FileState, ids1: Seq<FileId>, f2: GraphFiles, s2: FileState, ids2: Seq<FileId>)
+        requires files_fed(f1, s1, ids1) == files_fed(f2, s2, ids2)
+        ensures ids1.len() == ids2.len(),
+            forall|k: int| 0 <= k < ids1.len() ==> f1.by_id.vec@[ix(#[trigger] ids1[k])].name@ == f2.by_id.vec@[ix(ids2[k])].name@
+                && stamp_of(s1, ids1[k]) == stamp_of(s2, ids2[k]),
+    {
+        lemma_files_fed_shape(f1, s1, ids1);
+        lemma_files_fed_shape(f2, s2, ids2);
+        let a = files_fed(f1, s1, ids1);
+        let b = files_fed(f2, s2, ids2);
+        assert forall|k: int| 0 <= k < ids1.len() implies f1.by_id.vec@[ix(#[trigger] ids1[k])].name@ == f2.by_id.vec@[ix(ids2[k])].name@
+                && stamp_of(s1, ids1[k]) == stamp_of(s2, ids2[k]) by {
+            assert(a[2 * k] == b[2 * k]); assert(a[2 * k + 1] == b[2 * k + 1]);
+        }
+    }
+    /// C02 in one sentence, under the no-collision assumption: if the recorded signature equals the current one, nothing the
+    /// signature covers has changed since the record
+    pub proof fn lemma_equal_signature(f1: GraphFiles, s1: FileState, b1: Build, f2: GraphFiles, s2: FileState, b2: Build)
+        requires forall|x: Seq<Fed>, y: Seq<Fed>| #[trigger] hfinish(x) == #[trigger] hfinish(y) ==> x == y,
+            hfinish(manifest(f1, s1, b1)) == hfinish(manifest(f2, s2, b2))
+        ensures same_inputs(f1, s1, b1, f2, s2, b2)
+    {
+        lemma_manifest_inj(f1, s1, b1, f2, s2, b2);
+    }
     }
 }
